@@ -347,6 +347,78 @@ type progGen struct {
 	rng    *rand.Rand
 	divs   int
 	assign int
+	arith  bool // numeric profile: long literals, wide exponents, arithmetic and numeric builtins
+}
+
+// numLit: a random decimal literal of 1..34 significant digits, optional fraction and exponent.
+func (g *progGen) numLit() string {
+	n := 1 + g.rng.Intn(8)
+	switch g.rng.Intn(6) {
+	case 0:
+		n = 28 + g.rng.Intn(7) // at most 34 significant digits: the domain of C04 (longer literals are C12's)
+	case 1:
+		n = 14 + g.rng.Intn(8)
+	}
+	ds := make([]byte, n)
+	for k := range ds {
+		ds[k] = byte('0' + g.rng.Intn(10))
+		if g.rng.Intn(5) == 0 {
+			ds[k] = "0959"[g.rng.Intn(4)]
+		}
+	}
+	if ds[0] == '0' && n > 1 {
+		ds[0] = '1'
+	}
+	s := string(ds)
+	if g.rng.Intn(2) == 0 {
+		p := g.rng.Intn(n + 1)
+		if p == 0 {
+			s = "0." + s
+		} else if p < n {
+			s = s[:p] + "." + s[p:]
+		}
+	}
+	if g.rng.Intn(3) == 0 {
+		s += "e" + []string{"", "-", "+"}[g.rng.Intn(3)] + strconv.Itoa(g.rng.Intn(41))
+	}
+	return s
+}
+
+func (g *progGen) genArith(depth int) string {
+	if depth <= 0 || g.rng.Intn(6) == 0 {
+		if g.rng.Intn(10) < 7 {
+			return g.numLit()
+		}
+		return []string{"i", "j", "f", "d", "z", "$a", "$b", "inf", "nan"}[g.rng.Intn(9)]
+	}
+	sub := func() string { return g.genArith(depth - 1) }
+	switch k := g.rng.Intn(20); {
+	case k < 9:
+		return "(" + sub() + " " + []string{"+", "-", "*", "+", "-", "*", "*"}[g.rng.Intn(7)] + " " + sub() + ")"
+	case k < 12:
+		return "(" + sub() + " " + []string{"/", "%"}[g.rng.Intn(2)] + " " + sub() + ")"
+	case k < 13:
+		return "-(" + sub() + ")"
+	case k < 16:
+		b := []struct {
+			name string
+			ar   int
+		}{{"abs", 1}, {"ceil", 1}, {"floor", 1}, {"round", 1}, {"roundBank", 1}, {"max", 2}, {"min", 3}, {"toInt", 1}, {"toFloat", 1}, {"finite", 1}}[g.rng.Intn(10)]
+		args := []string{}
+		for k := 0; k < b.ar; k++ {
+			args = append(args, sub())
+		}
+		return b.name + "(" + strings.Join(args, ", ") + ")"
+	case k < 17:
+		return "(" + sub() + " " + []string{"<", ">", "<=", ">=", "==", "===", "!="}[g.rng.Intn(7)] + " " + sub() + ")"
+	case k < 18:
+		return "(" + sub() + " ? " + sub() + " : " + sub() + ")"
+	case k < 19:
+		g.assign++
+		return "(" + []string{"$a", "$b"}[g.rng.Intn(2)] + " = " + sub() + ", " + sub() + ")"
+	default:
+		return "[" + sub() + ", " + sub() + "]"
+	}
 }
 
 func (g *progGen) lit() string {
@@ -367,6 +439,9 @@ func (g *progGen) lit() string {
 }
 
 func (g *progGen) gen(depth int) string {
+	if g.arith {
+		return g.genArith(depth)
+	}
 	if depth <= 0 || g.rng.Intn(5) == 0 {
 		return g.lit()
 	}
